@@ -311,9 +311,15 @@ func (m *Decisions) AfterScan(ctx *h.ScanCtx) []h.Violation {
 		// (a node whose untaint failed is not in service), and when a trigger coincides with high
 		// utilisation (the trigger only raises the amount to at least one).
 		faultsOnlyNodeWrites := true
+		// failing removal calls (terminate / Node delete of force-tainted or expired nodes) do not change
+		// what has to be brought into service either
+		faultsOnlyNodeWritesOrRemovals := true
 		for _, e := range ctx.Entries {
 			if e.Err == "injected" && e.Op != sim.OpK8sGet && e.Op != sim.OpK8sUpdate {
 				faultsOnlyNodeWrites = false
+				if e.Op != sim.OpTerminate && e.Op != sim.OpK8sDelete {
+					faultsOnlyNodeWritesOrRemovals = false
+				}
 			}
 		}
 		// a fault-free fleet scale-up delivers what it asked for: every acquired instance is attached
@@ -340,9 +346,17 @@ func (m *Decisions) AfterScan(ctx *h.ScanCtx) []h.Violation {
 				}
 			}
 		}
-		if d.Class == "up" && d.NMin > 0 && !d.FromZero && (!ctx.Faulted || faultsOnlyNodeWrites) {
+		if d.Class == "up" && d.NMin > 0 && !d.FromZero && (!ctx.Faulted || faultsOnlyNodeWritesOrRemovals) {
 			ctx.H.Cov["c05.up-scans"]++
-			got := int64(len(g.U) + len(o.removes) + o.noopRemoves)
+			// only the untaint of a node from the tainted bucket brings a node into service (a node that also
+			// carries the force-removal taint, or is cordoned, stays out whatever is written to it)
+			inService := 0
+			for _, r := range o.removes {
+				if nodeByName(g.T, r) != nil {
+					inService++
+				}
+			}
+			got := int64(len(g.U) + inService + o.noopRemoves)
 			clamped := false
 			for _, e := range o.incr {
 				if e.Op == sim.OpSetDesired {
@@ -364,7 +378,7 @@ func (m *Decisions) AfterScan(ctx *h.ScanCtx) []h.Violation {
 					sig = "C05/amount/with-trigger"
 				}
 				add("C05", sig, fmt.Sprintf("group %s: requests %dm/%dB on %d untainted equal nodes, threshold %d: minimal sufficient node count %d, scan brought the group to %d (untainted %d, requested %d)",
-					g.Name, d.ReqCPU, d.ReqMem, len(g.U), g.Spec.Opts.ScaleUpThresholdPercent, d.NMin, got, len(o.removes)+o.noopRemoves, got-int64(len(g.U)+len(o.removes)+o.noopRemoves)))
+					g.Name, d.ReqCPU, d.ReqMem, len(g.U), g.Spec.Opts.ScaleUpThresholdPercent, d.NMin, got, inService+o.noopRemoves, got-int64(len(g.U)+inService+o.noopRemoves)))
 			}
 		}
 
